@@ -104,6 +104,21 @@ def brute_iso(pos, f, edges, est):
     return 0.5 * (S / n1) ** 4 / (0.457 + 0.494 / n1 + 0.045 / n1 ** 2), N
 
 
+MASK_CLASSES = ["bool", "bool-list", "int64", "int32", "uint8", "int-list"]
+
+
+def mask_as(m, cls):
+    """the same mask as another argument class"""
+    m = np.asarray(m, bool)
+    if cls == "bool":
+        return m.copy()
+    if cls == "bool-list":
+        return m.tolist()
+    if cls == "int-list":
+        return m.astype(int).tolist()
+    return m.astype({"int64": np.int64, "int32": np.int32, "uint8": np.uint8}[cls])
+
+
 class Capture:
     """records the arguments vario_estimate hands to its kernel wrappers (no change of behaviour)"""
 
@@ -184,6 +199,7 @@ def gen_cfg(rng, thorough, force=None):
         gmask = rng.random(size=shape) < 0.25
         if gmask.all():
             gmask.reshape(-1)[0] = False
+    mask_class = MASK_CLASSES[int(rng.integers(len(MASK_CLASSES)))]
     stacked = nf > 1 or rng.random() < 0.4
     fld = data if stacked else data[0]
     fm = fmask if stacked else fmask[0]
@@ -228,7 +244,7 @@ def gen_cfg(rng, thorough, force=None):
     est = "matheron" if rng.random() < 0.55 else "cressie"
     return dict(structured=structured, latlon=latlon, dim=dim, n=n, nf=nf, shape=shape, axes=axes, coords=coords, pos_arg=pos_arg,
                 data=data.reshape(nf, -1), fmask=fmask.reshape(nf, -1), gmask=gmask, field_arg=field_arg, no_data=no_data,
-                edges=edges, stdkw=stdkw, geo=geo, direction=direction, angles=angles, tol=tol, bw=bw, samp=samp, est=est)
+                edges=edges, stdkw=stdkw, geo=geo, mask_class=mask_class, direction=direction, angles=angles, tol=tol, bw=bw, samp=samp, est=est)
 
 
 def call_impl(gs, cfg):
@@ -238,7 +254,7 @@ def call_impl(gs, cfg):
     if cfg["latlon"]:
         kw["geo_scale"] = cfg["geo"]
     if cfg["gmask"] is not None:
-        kw["mask"] = cfg["gmask"].copy()
+        kw["mask"] = mask_as(cfg["gmask"], cfg.get("mask_class", "bool"))
     if cfg["direction"] is not None:
         kw.update(direction=cfg["direction"].copy(), angles_tol=cfg["tol"], bandwidth=cfg["bw"])
     if cfg["angles"] is not None:
@@ -252,6 +268,7 @@ def call_impl(gs, cfg):
 def cfg_case(cfg):
     out = {k: cfg[k] for k in ("structured", "latlon", "dim", "n", "nf", "no_data", "geo", "tol", "bw", "samp", "est")}
     out["stdkw"] = cfg.get("stdkw", {})
+    out["mask_class"] = cfg.get("mask_class")
     out["shape"] = list(cfg["shape"])
     for k in ("coords", "data", "fmask", "gmask", "edges", "direction", "angles"):
         out[k] = None if cfg[k] is None else arr_desc(cfg[k])
@@ -338,12 +355,13 @@ def correspondence(ctx, rng, gs, drv, n_cases, thorough):
         cfg = gen_cfg(rng, thorough)
         key = ("pre", cfg["structured"], cfg["latlon"], cfg["dim"], cfg["nf"], cfg["gmask"] is not None, bool(cfg["fmask"].any()),
                not np.isnan(cfg["no_data"]), cfg["edges"] is None, cfg["direction"] is not None, cfg["angles"] is not None,
-               cfg["samp"] is not None, cfg["est"], tuple(sorted(cfg["stdkw"])))
+               cfg["samp"] is not None, cfg["est"], tuple(sorted(cfg["stdkw"])), cfg["mask_class"] if cfg["gmask"] is not None else None)
         ctx.count(key if cfg["n"] >= 3 else None,
                   hist=dict(entry="correspondence", mesh="structured" if cfg["structured"] else "unstructured", latlon=cfg["latlon"],
                             dim=cfg["dim"], n=cfg["n"], nf=cfg["nf"], est=cfg["est"],
                             directional=(cfg["direction"] is not None or cfg["angles"] is not None), sampling=cfg["samp"] is not None,
-                            bins=("default" + "".join("+" + k for k in sorted(cfg["stdkw"]))) if cfg["edges"] is None else "given"))
+                            bins=("default" + "".join("+" + k for k in sorted(cfg["stdkw"]))) if cfg["edges"] is None else "given",
+                            mask_arg=cfg["mask_class"] if cfg["gmask"] is not None else "none"))
         if it < 3:
             ctx.sample(dict(kind="correspondence", **{k: v for k, v in cfg_case(cfg).items() if k not in ("coords", "data", "fmask")}))
         with Capture() as cap:
@@ -682,7 +700,8 @@ def history_sequences(ctx, rng, gs, drv, n_cases, thorough):
         if cfg["edges"] is not None:
             lay["bin_edges"], kw["bin_edges"] = _layout(rng, cfg["edges"], ["f64", "f64", "view", "int", "list"])
         if cfg["gmask"] is not None:
-            lay["mask"], kw["mask"] = ("bool", cfg["gmask"].copy()) if rng.random() < 0.6 else ("list", cfg["gmask"].tolist())
+            lay["mask"] = cfg["mask_class"]
+            kw["mask"] = mask_as(cfg["gmask"], cfg["mask_class"])
         if cfg["direction"] is not None:
             lay["direction"], kw["direction"] = _layout(rng, cfg["direction"], ["f64", "view", "fortran", "list"])
             kw.update(angles_tol=cfg["tol"], bandwidth=cfg["bw"])
@@ -912,8 +931,10 @@ def probes(ctx, rng, gs, reps, thorough):
                 hist = dict(entry="probe-missing", dim=dim, n=n, nf=nf, est=est, bins=bins)
                 sel = lambda a: a if nf > 1 else a[0]
                 A = P.ve(tuple(pos[:, ~m]), sel(f[:, ~m]), base, bin_edges=be, estimator=est)
-                ctx.count(("mask-arg", dim, n, nf, est, bins), hist=hist)
-                P.same("mask argument = removed points", "missing:mask-arg", A, P.ve(tuple(pos), sel(f), base, bin_edges=be, estimator=est, mask=m), base, exact=True)
+                for mc in MASK_CLASSES:
+                    ctx.count(("mask-arg", dim, n, nf, est, bins, mc), hist=hist)
+                    P.same("mask argument (%s) = removed points" % mc, "missing:mask-arg", A,
+                           P.ve(tuple(pos), sel(f), base, bin_edges=be, estimator=est, mask=mask_as(m, mc)), dict(base, mask_class=mc), exact=True)
                 ctx.count(("masked-array", dim, n, nf, est, bins), hist=hist)
                 P.same("masked array = removed points", "missing:masked-array", A,
                        P.ve(tuple(pos), np.ma.array(sel(f), mask=sel(np.tile(m, (nf, 1)))), base, bin_edges=be, estimator=est), base, exact=True)
@@ -951,7 +972,8 @@ def probes(ctx, rng, gs, reps, thorough):
                     fall = f.copy(); fall[miss] = np.nan
                     keep = ~np.all(miss, axis=0)
                     if keep.any():      # (everything missing + default bins: ValueError from standard_bins, out of scope)
-                        B = P.ve(tuple(pos), np.ma.array(sel(fmix), mask=sel(m2)), base, bin_edges=be, estimator=est, no_data=nd, mask=m1)
+                        B = P.ve(tuple(pos), np.ma.array(sel(fmix), mask=sel(m2)), base, bin_edges=be, estimator=est, no_data=nd,
+                                 mask=mask_as(m1, MASK_CLASSES[int(rng.integers(len(MASK_CLASSES)))]))
                         A3 = P.ve(tuple(pos[:, keep]), sel(fall[:, keep]), base, bin_edges=be, estimator=est)
                         P.same("union of mask argument, field mask, NaN and no_data", "missing:union", A3, B,
                                dict(base, m1=arr_desc(m1), m2=arr_desc(m2), m3=arr_desc(m3), m4=arr_desc(m4), no_data=nd), exact=True)
@@ -997,8 +1019,9 @@ def probes(ctx, rng, gs, reps, thorough):
                 base = dict(dim=dim, shape=list(shape), nf=nf, est=est, bins=bins, axes=[arr_desc(a) for a in axes], field=arr_desc(fld),
                             mask=None if mask is None else arr_desc(mask))
                 ctx.count(("structured", shape, nf, est, bins, mask is not None), hist=dict(entry="probe-structured", dim=dim, n=int(np.prod(shape)), nf=nf, bins=bins))
-                kw = {} if mask is None else dict(mask=mask)
-                kw2 = {} if mask is None else dict(mask=mask.reshape(-1))
+                mcl = MASK_CLASSES[int(rng.integers(len(MASK_CLASSES)))]
+                kw = {} if mask is None else dict(mask=mask_as(mask, mcl))
+                kw2 = {} if mask is None else dict(mask=mask_as(mask.reshape(-1), mcl))
                 A = P.ve(tuple(axes), fld if nf > 1 else fld[0], base, bin_edges=be, estimator=est, mesh_type="structured", **kw)
                 B = P.ve(tuple(mesh), fld.reshape(nf, -1) if nf > 1 else fld.reshape(-1), base, bin_edges=be, estimator=est, **kw2)
                 P.same("structured mesh = equivalent point list", "structured:pointlist", B, A, base, exact=True)
@@ -1019,7 +1042,7 @@ def probes(ctx, rng, gs, reps, thorough):
                 be = e if bins == "given" else None
                 base = dict(dim=dim, n=n, nf=nf, bins=bins, k=k, seed=seed, pos=arr_desc(pos), field=arr_desc(f), mask=arr_desc(m), edges=arr_desc(e))
                 ctx.count(("sampling", dim, n, nf, bins), hist=dict(entry="probe-sampling", dim=dim, n=n, nf=nf, bins=bins))
-                A = P.ve(tuple(pos), f if nf > 1 else f[0], base, bin_edges=be, sampling_size=k, sampling_seed=seed, mask=m)
+                A = P.ve(tuple(pos), f if nf > 1 else f[0], base, bin_edges=be, sampling_size=k, sampling_seed=seed, mask=mask_as(m, MASK_CLASSES[int(rng.integers(len(MASK_CLASSES)))]))
                 A_again = P.ve(tuple(pos), f if nf > 1 else f[0], base, bin_edges=be, sampling_size=k, sampling_seed=seed, mask=m)
                 P.same("same seed, same estimate", "sampling:reproducible", A, A_again, base, exact=True)
                 pk, fk = pos[:, ~m], f[:, ~m]
@@ -1127,6 +1150,80 @@ def probes(ctx, rng, gs, reps, thorough):
             B = P.ve(tuple(ll2), f if nf > 1 else f[0], dict(n=n), bin_edges=er, latlon=True, estimator=est)
             P.same("lat-lon: rotation about the polar axis and mirroring at the equator", "latlon:rigid",
                    R, B, dict(n=n, latlon=arr_desc(ll), latlon2=arr_desc(ll2), field=arr_desc(f), edges=arr_desc(er)), near=near)
+
+
+def preproc_product(ctx, rng, gs, reps):
+    """mean {none, constant, callable} x trend {none, constant, callable} x normalizer {none, class, instance} x
+    fit_normalizer: vario_estimate must equal preprocessing by hand in the documented order — detrend, fit the
+    normalizer to the DETRENDED data (if requested), normalize, remove the mean — followed by the plain estimate;
+    the returned normalizer must carry the parameters fitted to the detrended data."""
+    import copy
+    P = Probe(ctx, gs)
+    classes = [gs.normalizer.YeoJohnson, gs.normalizer.BoxCox, gs.normalizer.Modulus, gs.normalizer.Manly, gs.normalizer.LogNormal]
+    for rep in range(reps):
+        dim = int(rng.integers(1, 4))
+        n = int(rng.choice([12, 20, 30]))
+        nf = int(rng.integers(1, 3))
+        pos = rng.normal(size=(dim, n)) * 2
+        positive = np.exp(0.6 * rng.normal(size=(nf, n))) + 0.3          # detrended data: positive, skewed
+        e = np.sort(rng.uniform(0, 6.0, int(rng.integers(2, 6)) + 1)); e[0] = 0.0
+        est = "matheron" if rng.random() < 0.5 else "cressie"
+        cm, ct = float(rng.normal()), float(rng.uniform(0.5, 3.0))
+        a, b = float(rng.uniform(0.3, 1.5)), float(rng.uniform(1.0, 4.0))
+        means = [("none", None), ("const", cm), ("callable", lambda *x: 0.4 * x[0] - 0.2)]
+        trends = [("none", None), ("const", ct), ("callable", lambda *x: a * x[0] + b)]
+        for mname, mean in means:
+            for tname, trend in trends:
+                tv = trend(*pos) if callable(trend) else (0.0 if trend is None else trend)
+                mv = mean(*pos) if callable(mean) else (0.0 if mean is None else mean)
+                raw = positive + tv                                           # so that raw - trend is positive (BoxCox, LogNormal)
+                for nname in ("none", "class", "instance"):
+                    for fit in (False, True):
+                        cls = classes[int(rng.integers(len(classes)))]
+                        if nname == "none":
+                            norm_arg, hand = None, gs.normalizer.Normalizer()
+                        elif nname == "class":
+                            norm_arg, hand = cls, cls()
+                        else:
+                            lm = float(rng.uniform(0.2, 1.5))
+                            norm_arg = cls() if cls is gs.normalizer.LogNormal else cls(lmbda=lm)
+                            hand = copy.deepcopy(norm_arg)
+                        ctx.count(("preproc", mname, tname, nname, fit, cls.__name__ if nname != "none" else "-", dim, nf, est),
+                                  hist=dict(entry="probe-preprocessing", dim=dim, n=n, nf=nf, est=est, mean=mname, trend=tname,
+                                            normalizer=nname + (":" + cls.__name__ if nname != "none" else ""), fit_normalizer=fit))
+                        base = dict(dim=dim, n=n, nf=nf, est=est, mean=mname, trend=tname, normalizer=nname, normalizer_class=cls.__name__,
+                                    fit_normalizer=fit, mean_const=cm, trend_const=ct, trend_callable=[a, b],
+                                    pos=arr_desc(pos), field=arr_desc(raw), edges=arr_desc(e))
+                        sel = (lambda x: x) if nf > 1 else (lambda x: x[0])
+                        try:
+                            import warnings
+                            with warnings.catch_warnings():
+                                warnings.simplefilter("ignore")
+                                det = raw - tv
+                                if fit:
+                                    hand.fit(det)
+                                out = hand.normalize(det) - mv
+                                res = gs.vario_estimate(tuple(pos), sel(raw.copy()), e, estimator=est, return_counts=True, mean=mean, trend=trend,
+                                                        normalizer=norm_arg, fit_normalizer=fit)
+                        except Exception as ex:   # noqa
+                            ctx.violation("probe: vario_estimate raised", "%s: %s" % (type(ex).__name__, ex), base, key="vario_estimate:exception")
+                            continue
+                        A = P.ve(tuple(pos), sel(out), base, bin_edges=e, estimator=est)
+                        B = [np.asarray(x) for x in res[:3]]
+                        P.same("mean / trend / normalizer / fit_normalizer = preprocessing by hand in the documented order",
+                               "preprocessing:product", A, B, base)
+                        if fit:
+                            if len(res) != 4:
+                                ctx.violation("probe: fitted normalizer returned", "fit_normalizer=True must return the fitted normalizer as 4th value",
+                                              base, key="preprocessing:fit-return")
+                                continue
+                            got = res[3]
+                            for name in sorted(hand.default_parameter):
+                                x, y = float(getattr(hand, name)), float(getattr(got, name))
+                                if not abs(x - y) <= 1e-8 * max(1.0, abs(x)):
+                                    ctx.violation("probe: parameters of the returned normalizer",
+                                                  "the returned normalizer's %s = %r is not the value fitted to the detrended data (%r)" % (name, y, x),
+                                                  dict(base, parameter=name, expected=x, got=y), key="preprocessing:fit-parameters")
 
 
 def axis_probes(ctx, rng, gs, reps):
@@ -1260,6 +1357,7 @@ def run(ctx):
         t2 = time.time()
         probes(ctx, rng, gs, 400 if thorough else 40, thorough)
         axis_probes(ctx, rng, gs, 400 if thorough else 40)
+        preproc_product(ctx, rng, gs, 200 if thorough else 30)
         ctx.notes.append("wall: proofs+driver build (incl. waiting for the shared build lock) %.0fs, correspondence %.0fs, probes %.0fs"
                          % (t1 - t0, t2 - t1, time.time() - t2))
         C.log("[C09] " + ctx.notes[-1])
